@@ -88,7 +88,12 @@ func findSelectorExprViolation(
 	expr *ast.SelectorExpr,
 ) *PackageOnlyViolation {
 	// Get the type information
-	obj := ctx.pass.TypesInfo.ObjectOf(expr.Sel)
+	// An embedded field "pkg.Type" both defines the field and uses the type:
+	// look at the object that is used, not at the field being defined
+	obj := ctx.pass.TypesInfo.Uses[expr.Sel]
+	if obj == nil {
+		obj = ctx.pass.TypesInfo.ObjectOf(expr.Sel)
+	}
 	if obj == nil {
 		return nil
 	}
